@@ -28,7 +28,7 @@ ASSUMPTIONS = [
     "pure-Python cu2qu/qu2cu are monitored (the Cython variants are not built in this environment)",
 ]
 REQUIRED_MONITORS = ["curve_to_quadratic", "curves_to_quadratic", "quadratic_to_curves"]
-CASE_TIMEOUT = 300
+CASE_TIMEOUT = 900
 MANIFEST = {
     "text": "Exploration: tens of thousands of generated cubic curves, master lists and quadratic splines are converted by the real functions; a post-condition monitor checks end points exactly, the deviation with an independent Bernstein-coefficient bound of the error curve backed by a parameter-free geometric distance, equal segment counts across masters, and that errors are not raised when a fitting spline of the same family exists. The unit tests only sample a few curves; the monitor judges every conversion executed, including those reached through the pens and glyph helpers.",
     "note": "Trusted base: vmon/oracle/bezier.py (de Casteljau, degree elevation, control-polygon bound, numpy polyline distance). Float noise allowance tol*1e-9 + 1e-12*scale. Cython-compiled variants are out of reach (not built here).",
